@@ -13,7 +13,12 @@ def run(ctx):
     vlib.model_check_many(ctx, [dict(module_rel="list/MichaelListMC.tla", cfg_rel="list/MichaelList_q.cfg" if ctx.quick() else "list/MichaelList_t.cfg", workers=6, timeout=3000),
                                 dict(module_rel="list/MichaelListMC.tla", cfg_rel="list/MichaelList_bad_norecheck.cfg", workers=4, expect_violation="LinOK"),
                                 dict(module_rel="list/LazyListMC.tla", cfg_rel="list/LazyList_q.cfg" if ctx.quick() else "list/LazyList_t.cfg", workers=6, timeout=3000),
-                                dict(module_rel="list/LazyListMC.tla", cfg_rel="list/LazyList_bad_novalidate.cfg", workers=2, expect_violation="StructureOK")], par=4)
+                                dict(module_rel="list/LazyListMC.tla", cfg_rel="list/LazyList_bad_novalidate.cfg", workers=2, expect_violation="StructureOK"),
+                                # IterList.tla (IterableList: permanent nodes, marked data pointers, re-use of empty nodes, find_prev re-check); refuted: seeded change C13
+                                dict(module_rel="list/IterListMC.tla", cfg_rel="list/IterList_q.cfg", workers=2),
+                                dict(module_rel="list/IterListMC.tla", cfg_rel="list/IterList_q2d.cfg", workers=2),
+                                dict(module_rel="list/IterListMC.tla", cfg_rel="list/IterList_bad_findprev.cfg", workers=2, expect_violation="ListMatches")] +
+                               ([] if ctx.quick() else [dict(module_rel="list/IterListMC.tla", cfg_rel="list/IterList_q3.cfg", workers=8, timeout=3000)]), par=5)
     q = ctx.quick()
     n = 1 if q else 8
     deep = [("dfs", 2500 if q else 300000, 2 if q else 3)]
